@@ -85,18 +85,28 @@ LastMove(o, t, p) ==
   LET M == { i \in DOMAIN moves : moves[i].t = t /\ moves[i].p = p /\ (o \in DOMAIN began => moves[i].pos < began[o].pos) } IN
   IF M = {} THEN 0 ELSE CHOOSE i \in M : \A k \in M : k <= i
 
-Key(e) == [tid |-> tid, o |-> e.o, api |-> e.api, broker |-> e.broker, v |-> e.v, conn |-> e.conn, corr |-> e.corr]
+\* the address (host:port) a metadata answer advertises for broker b
+AddrIn(m, b) ==
+  LET A == { i \in DOMAIN m.addrs : m.addrs[i].b = b } IN
+  IF A = {} THEN "" ELSE m.addrs[CHOOSE i \in A : TRUE].ep
+
+Key(e) == [tid |-> tid, o |-> e.o, api |-> e.api, broker |-> e.broker, ep |-> e.ep, v |-> e.v, conn |-> e.conn, corr |-> e.corr]
 
 -----------------------------------------------------------------------------
 ReqBad(e) ==
   LET o == e.o
       cand == Cand(o)
+      \* Routing is judged by endpoints, which is what the client dials: the endpoint that received the request must
+      \* be the address that some snapshot the call may have been routed with (or a later one applied before the
+      \* request was written) advertises for the broker id that the same snapshot designates for the request.
+      \* A broker that has moved away (another leader, or the same id at a new address) is the wrong endpoint.
       routeBad ==
         IF o <= 0 THEN FALSE
-        ELSE IF e.api \in LeaderApis THEN \A i \in cand : LeaderIn(metas[i], e.t, e.p) # e.broker
-        ELSE IF e.api \in CtrlrApis THEN \A i \in cand : metas[i].ctrlr # e.broker
-        ELSE IF e.api \in CoordApis THEN ~(o \in DOMAIN fc /\ fc[o] = e.broker)
+        ELSE IF e.api \in LeaderApis THEN \A i \in cand : AddrIn(metas[i], LeaderIn(metas[i], e.t, e.p)) # e.ep
+        ELSE IF e.api \in CtrlrApis THEN \A i \in cand : AddrIn(metas[i], metas[i].ctrlr) # e.ep
+        ELSE IF e.api \in CoordApis THEN ~(o \in DOMAIN fc /\ \E i \in cand : AddrIn(metas[i], fc[o]) = e.ep)
         ELSE FALSE
+      addrBad == FALSE
       br == BRange(e.broker, e.api)
       cr == CRangeOf(e.api)
       versionBad ==
@@ -107,7 +117,7 @@ ReqBad(e) ==
       \* every snapshot the call may have used was asked for after the move
       followBad == m # 0 /\ cand # {} /\ (\A i \in cand : metas[i].n > moves[m].reqn) /\ e.broker # moves[m].to
       realtimeBad == m # 0 /\ o \in DOMAIN began /\ began[o].ts - moves[m].ts > SlackMs /\ e.broker # moves[m].to
-  IN [bad EXCEPT !.route = IF routeBad THEN @ \cup {Key(e)} ELSE @,
+  IN [bad EXCEPT !.route = IF routeBad \/ addrBad THEN @ \cup {Key(e)} ELSE @,
                  !.version = IF versionBad THEN @ \cup {Key(e)} ELSE @,
                  !.follow = IF followBad THEN @ \cup {Key(e)} ELSE @,
                  !.realtime = IF realtimeBad THEN @ \cup {Key(e)} ELSE @]
@@ -172,7 +182,7 @@ Upd(e) ==
     [] e.ev = "reply" ->
          LET failed == e.closed \/ e.cut >= 0 IN
          /\ metas' = IF e.api = "Metadata"
-                       THEN Append(metas, [n |-> e.n, ok |-> ~failed, alive |-> e.alive, ctrlr |-> e.ctrlr, topics |-> e.topics, pos |-> l])
+                       THEN Append(metas, [n |-> e.n, ok |-> ~failed, alive |-> e.alive, ctrlr |-> e.ctrlr, topics |-> e.topics, addrs |-> e.addrs, pos |-> l])
                        ELSE metas
          /\ fc' = IF e.api = "FindCoordinator" /\ ~failed /\ e.o > 0 THEN (e.o :> e.node) @@ fc ELSE fc
          /\ conn' = (e.conn :> [C(e.conn) EXCEPT !.pend = IF failed THEN @ ELSE Max(0, @ - 1), !.failed = @ \/ failed]) @@ conn
